@@ -84,7 +84,7 @@ def proofs(ctx):
 PRE = ["absent", "stray", "rec_X", "rec_X_absent", "rec_M", "rec_Y", "rec_N_file", "rec_N_absent"]
 SRC = ["ok", "ok", "ok", "file_missing", "M", "X", "N", "inactive", "none"]
 TOOLS = [("both", {}), ("rsync", {}), ("bbcp", {}), ("none", {}), ("real", {}), ("both", {"rsync": "fail"}), ("both", {"bbcp": "fail"}), ("rsync", {"rsync": "mkstemp"}),
-         ("rsync", {"rsync": "write_failed"}), ("both", {"bbcp": "wrong_md5"}), ("both", {"bbcp": "garbled"}), ("bbcp", {"bbcp": "wrong_md5"})]
+         ("rsync", {"rsync": "write_failed"}), ("both", {"bbcp": "wrong_md5"}), ("both", {"bbcp": "garbled"}), ("bbcp", {"bbcp": "wrong_md5"}), ("rsync", {"rsync": "hang"}), ("bbcp", {"bbcp": "hang"})]
 
 
 def gen_scenario(rng):
@@ -114,6 +114,8 @@ def run_scenario(ctx, base, sc):
         spec["copies"].append({"file": 0, "node": "d", "has": st, "wants": "Y", "disk": disk})
     sim = daemon.Sim(base, spec)
     sim.set_tools(sc["tools"][0], **sc["tools"][1])
+    if "hang" in sc["tools"][1].values():
+        w.config.config["daemon"]["pull_timeout_base"] = 0.25  # the transport is killed after a quarter of a second
     rp = {"family": "transfer", "scenario": sc}
     mon = monitors.Monitors(sim, ctx, rp)
     try:
@@ -181,13 +183,13 @@ def run_scenario(ctx, base, sc):
                 out = "(TFailed true)"  # the system's rsync would need ssh to the source host: it exits non-zero
             elif m == "ok":
                 out = "(TOk MTrusted)" if src_exists else "(TFailed true)"
-            elif m == "fail":
-                out = "(TFailed true)"
+            elif m in ("fail", "hang"):
+                out = "(TFailed true)"  # a time-out is a failure that may be the source's fault
             else:
                 out = "(TFailed false)"
         elif t == "bbcp":
             m = modes.get("bbcp", "ok")
-            if m == "fail" or not src_exists:
+            if m in ("fail", "hang") or not src_exists:
                 out = "(TFailed true)"
             elif m == "garbled":
                 out = "(TFailed false)"
@@ -227,6 +229,10 @@ def explore(ctx, n=None):
         {"local": True, "route_known": True, "src_type": "F", "dst_type": "A", "tools": ("none", {}), "pre": "absent", "src": "ok", "name": "a/b/f", "size": 1, "bad_md5": False},
         {"local": True, "route_known": True, "src_type": "A", "dst_type": "A", "tools": ("both", {}), "pre": "stray", "src": "ok", "name": "f", "size": 150, "bad_md5": False},
         {"local": False, "route_known": True, "src_type": "A", "dst_type": "A", "tools": ("both", {"bbcp": "wrong_md5"}), "pre": "rec_X", "src": "ok", "name": "f", "size": 150, "bad_md5": False},
+        # a transport that is killed by the pull time-out, over a destination recorded corrupt
+        {"local": False, "route_known": True, "src_type": "F", "dst_type": "A", "tools": ("rsync", {"rsync": "hang"}), "pre": "rec_X", "src": "ok", "name": "f", "size": 150, "bad_md5": False},
+        {"local": True, "route_known": True, "src_type": "F", "dst_type": "A", "tools": ("rsync", {"rsync": "hang"}), "pre": "absent", "src": "ok", "name": "f", "size": 150, "bad_md5": False},
+        {"local": False, "route_known": True, "src_type": "F", "dst_type": "A", "tools": ("bbcp", {"bbcp": "hang"}), "pre": "rec_X", "src": "ok", "name": "f", "size": 1, "bad_md5": False},
     ]
     for k in range(n + len(corpus)):
         sc = corpus[k] if k < len(corpus) else gen_scenario(ctx.rng)
